@@ -158,6 +158,16 @@ def read_job(job):
                 out = None
                 res['outcome'] = 'ok'
                 res['line'] = 'read raw'
+            elif job.get('as_file'):
+                # the same text through the file entry point: read_pil(path, is_file=True)
+                import os, tempfile
+                fd, path = tempfile.mkstemp(prefix='verif_reader_', suffix='.pil')
+                try:
+                    with os.fdopen(fd, 'w', newline='') as f:
+                        f.write(job['text'])
+                    out = objectio.read_pil(path, is_file=True, ignore=job.get('ignore'))
+                finally:
+                    os.unlink(path)
             else:
                 out = objectio.read_pil(job['text'], ignore=job.get('ignore'))
         except Exception as e:
